@@ -465,12 +465,47 @@ def concurrent_union(ctx, rng):
                                f'a chain ({order}) that validates {len(jobs)} packets at once said {g!r} for a {what} packet', {'signer': kind, 'batch': [w_ for w_, _ in jobs], 'wire': wire})
 
 
+def unsigned_parameterised(ctx, rng):
+    """The parameters-digest check on Interests that carry ApplicationParameters but NO signature - of 0, 1, 5, 252, 253, 300 octets,
+    given as bytes / bytearray / memoryview: yes exactly when the digest component is the SHA-256 of what the format says it covers."""
+    from ndn.encoding import make_interest, parse_interest, InterestParam
+    for plen in (0, 0, 1, 5, 32, 252, 253, 300):
+        for rep in range(ctx.n(3, 60)):
+            nm = gen.simple_name(rng, 1, 4)
+            raw = gen.rand_bytes(rng, plen)
+            prm = [raw, bytearray(raw), memoryview(raw)][rep % 3]
+            try:
+                wire = bytes(make_interest(nm, InterestParam(nonce=rng.getrandbits(32), lifetime=rng.choice([None, 4000])), prm))
+                ref = rc.strict_interest(wire)
+            except Exception as e:   # noqa
+                ctx.report(f'make-interest-raises:{type(e).__name__}', f'{e!r}', {'param_len': plen})
+                continue
+            for label, w_ in (('genuine', wire), ('digest-bit-flipped', None)):
+                if w_ is None:
+                    # flip one bit inside the digest component
+                    i_ = wire.index(rc.comp(2, b'')[:1] + b'\x20') + 2 + rng.randrange(32)
+                    w_ = wire[:i_] + bytes([wire[i_] ^ 0x10]) + wire[i_ + 1:]
+                try:
+                    n_, p_, a_, s_ = parse_interest(w_)
+                    got = run_sync(params_sha256_checker(n_, s_))
+                except Exception as e:   # noqa
+                    got = e
+                exp = label == 'genuine'
+                ctx.event('unsigned-parameterised-interest-digest-checked')
+                ctx.case(('unsigned-params', plen, label, rep % 3), nontrivial=True)
+                if (got is True) != exp:
+                    ctx.report('params-checker-rejects-valid:unsigned' if exp else 'params-checker-iff:unsigned',
+                               f'params_sha256_checker said {got!r} for a {label} unsigned Interest with {plen} octets of ApplicationParameters', {'wire': w_, 'param_len': plen})
+
+
 def run(ctx):
     ctx.rule = RULE
     rng = ctx.rng
     if ctx.shard == 0:
         signature_value_sweep(ctx, rng)
     concurrent_union(ctx, rng)
+    unsigned_parameterised(ctx, rng)
+    ctx.need_event('unsigned-parameterised-interest-digest-checked')
     ctx.need_event('packets-validated-at-once-by-one-chain')
     n = ctx.n(36, 4000)
     budget = 260 if ctx.quick else 900
